@@ -317,9 +317,71 @@ def build_wn(wntr, spec):
         lk = nd.get("leak")
         if lk:
             wn.get_node(nd["name"]).add_leak(wn, area=lk["area"], discharge_coeff=lk["cd"], start_time=lk["start"], end_time=lk["end"])
+    # post-construction edits of the topology (C01 reversal family): wntr.morph.link.reverse_link and the end-node setters
+    for e in spec.get("edits", []):
+        if e["op"] == "reverse":
+            wntr.morph.link.reverse_link(wn, e["link"], return_copy=False)
+        elif e["op"] == "set_end":
+            wn.get_link(e["link"]).end_node = wn.get_node(e["node"])
+        elif e["op"] == "set_start":
+            wn.get_link(e["link"]).start_node = wn.get_node(e["node"])
+        else:
+            raise ValueError("unknown edit %r" % (e,))
     # add_valve stores `initial_status` only; the documented way to make a model ready to (re)run
     wn.reset_initial_values()
     return wn
+
+
+def effective_links(spec):
+    """the link dicts with the start / end nodes they have AFTER spec['edits'] (what the oracles must use)"""
+    links = [dict(l) for l in spec["links"]]
+    by = {l["name"]: l for l in links}
+    for e in spec.get("edits", []):
+        l = by[e["link"]]
+        if e["op"] == "reverse":
+            l["start"], l["end"] = l["end"], l["start"]
+        elif e["op"] == "set_end":
+            l["end"] = e["node"]
+        elif e["op"] == "set_start":
+            l["start"] = e["node"]
+    return links
+
+
+def add_reversal_edits(rng, spec):
+    """reverse 1-3 links in place (pipes, CV pipes, TCVs, sometimes a pump) and, half of the time, re-assign one end of a pipe
+    to another node -- preferably a tank -- keeping every node attached to at least one link"""
+    kind = {nd["name"]: nd["type"] for nd in spec["nodes"]}
+    edits = []
+    cand = [l for l in spec["links"] if l["type"] == "pipe" or (l["type"] == "valve" and l["valve_type"] == "TCV")
+            or (l["type"] == "pump" and rng.random() < 0.2 and kind[l["start"]] == "junction")]
+    rng.shuffle(cand)
+    for l in cand[: rng.randint(1, 3)]:
+        edits.append({"op": "reverse", "link": l["name"]})
+    spec["edits"] = edits
+    if rng.random() < 0.6:
+        links = effective_links(spec)
+        deg = {}
+        for l in links:
+            deg[l["start"]] = deg.get(l["start"], 0) + 1
+            deg[l["end"]] = deg.get(l["end"], 0) + 1
+        tanks = [n for n, k in kind.items() if k == "tank"]
+        pipes = [l for l in links if l["type"] == "pipe"]
+        rng.shuffle(pipes)
+        for l in pipes:
+            which = rng.choice(["end", "start"])
+            old, other = l[which], l["start" if which == "end" else "end"]
+            if deg.get(old, 0) < 2 or kind[other] != "junction":
+                continue
+            targets = [t for t in tanks if t not in (old, other)] if (tanks and rng.random() < 0.7) else \
+                      [n for n, k in kind.items() if k == "junction" and n not in (old, other)]
+            if not targets:
+                continue
+            edits.append({"op": "set_" + which, "link": l["name"], "node": rng.choice(targets)})
+            if rng.random() < 0.5:  # and reverse the re-assigned link as well
+                edits.append({"op": "reverse", "link": l["name"]})
+            break
+    spec.setdefault("features", {})["reversal_family"] = True
+    return spec
 
 
 def spec_signature(spec):
